@@ -296,6 +296,25 @@ def judge(text, expected, acc, level, case=None):
                 size=len(text),
             )
             return False
+    # the default stack (what a plain parse_string(text) gives): the same blocks with the same types, keys and field
+    # keys in the same order (values are then stripped / resolved: C10 and C11 decide those)
+    shape = lambda bs: [(b[0], b[1], b[2], tuple(k for k, _ in b[3])) if b[0] == "entry" else ((b[0], b[1]) if b[0] == "string" else b) for b in bs]
+    acc.trace()
+    try:
+        obs = dialect.observed(bibtexparser.parse_string(text))
+    except Exception as e:
+        acc.exception(e, case, "parse_string (default stack)", size=len(text))
+        return False
+    if shape(obs) != shape(expected):
+        se, so = shape(expected), shape(obs)
+        i = next((n for n, (x, y) in enumerate(zip(se, so)) if x != y), min(len(se), len(so)))
+        what = "block_count" if len(se) != len(so) else (f"class:{se[i][0]}->{so[i][0]}" if se[i][0] != so[i][0] else se[i][0] + "_shape")
+        acc.violation(
+            {"oracle": "blocks_as_written", "what": what, "level": level, "route": "default stack"},
+            {"case": case, "observed": obs, "expected": expected, "route": "parse_string(text)", "first_difference_at_block": i},
+            size=len(text),
+        )
+        return False
     return True
 
 
